@@ -103,8 +103,23 @@ def query_case(draw, max_tasks=8):
         flt = dict(kw=draw(st.lists(one_filter(n), min_size=1, max_size=3)))
     action = draw(st.sampled_from(['query', 'query', 'query', 'assign', 'remove_all']))
     if action == 'remove_all':
-        recv = draw(st.sampled_from(['wbs', 'wbs.roots', 'children']))
-    return dict(spec=spec, recv=recv, of=draw(st.integers(0, 20)), flt=flt, action=action,
+        recv = draw(st.sampled_from(['wbs', 'wbs.roots', 'children', 'predecessors', 'successors']))
+    elif draw(st.integers(0, 5)) == 0:
+        recv = draw(st.sampled_from(['predecessors', 'successors']))
+    ext = []
+    if recv in ('predecessors', 'successors'):
+        # the link list of one task holds members and tasks outside the WBS - some with the id of a member
+        for k in range(draw(st.integers(1, 3))):
+            e = dict(id=draw(st.integers(1, n)), parent=None)
+            for a in ('name', 'resource', 'estimate', 'spent', 'milestone'):
+                e[a] = draw(st.sampled_from(POOL[a]))
+            e['custom'] = {}
+            for a in ('tag', 'prio'):
+                x = draw(st.sampled_from(POOL[a]))
+                if x != '<absent>':
+                    e['custom'][a] = x
+            ext.append(e)
+    return dict(spec=spec, recv=recv, of=draw(st.integers(0, 20)), flt=flt, action=action, ext=ext,
                 assign=[draw(st.sampled_from(['tag', 'name', 'resource', 'prio', 'color'])), draw(st.sampled_from(['zz', 7, None]))])
 
 
@@ -177,7 +192,27 @@ def check(case, exclude=True):
     if recv in ('children', 'all_children') and not summaries:
         recv = 'wbs.roots'
     owner = summaries[case['of'] % len(summaries)] if summaries else None
-    if recv == 'wbs.tasks' or recv == 'wbs':
+    link_elems = None
+    if recv in ('predecessors', 'successors'):
+        from pjplan import Task
+        owner_l = m.order[case['of'] % len(m.order)]
+        lo = objs[owner_l]
+        for e in case.get('ext', []):
+            x = Task(e['id'], e['name'], resource=e['resource'], estimate=e['estimate'], spent=e['spent'], milestone=e['milestone'], **e['custom'])
+            try:
+                (lo.predecessors if recv == 'predecessors' else lo.successors).append(x)
+            except RuntimeError:
+                pass
+        lst = lo.predecessors if recv == 'predecessors' else lo.successors
+        link_elems = list(lst)
+        ext_spec = {}
+        for x in link_elems:
+            if objs.get(x.id) is not x:
+                ext_spec[id(x)] = next(e for e in case['ext'] if e['id'] == x.id and e['name'] == x.name and e['estimate'] == x.estimate
+                                       and e['spent'] == x.spent and e['resource'] == x.resource and e['milestone'] == x.milestone
+                                       and e['custom'] == {k: v_ for k, v_ in x.__dict__.items() if k in ('tag', 'prio')})
+        lst_ids = list(range(len(link_elems)))          # positions in the link list stand for the elements
+    elif recv == 'wbs.tasks' or recv == 'wbs':
         lst_ids = m.dfs()
         lst = w.tasks
     elif recv == 'wbs.roots':
@@ -195,9 +230,19 @@ def check(case, exclude=True):
     flt = case['flt']
     # ---- expected selection
     unjudged = False
+    def el_obj(i):
+        return link_elems[i] if link_elems is not None else objs[i]
+
+    def el_spec(i):
+        if link_elems is None:
+            return m.t[i], m.parent[i]
+        x = link_elems[i]
+        if id(x) in ext_spec:
+            return ext_spec[id(x)], None
+        return m.t[x.id], m.parent[x.id]
     if 'pred' in flt:
         fn = PREDICATES[flt['pred']]
-        exp = [i for i in lst_ids if fn(objs[i])]
+        exp = [i for i in lst_ids if fn(el_obj(i))]
         kwargs, key = {}, fn
         suffix_on_missing = False
     else:
@@ -215,7 +260,8 @@ def check(case, exclude=True):
         for i in lst_ids:
             ok = True
             for a, s, v in last.values():
-                val = attr_value(m.t[i], a, m.parent[i])
+                sp_, par_ = el_spec(i)
+                val = attr_value(sp_, a, par_)
                 if s in ('_lt_', '_le_', '_gt_', '_ge_', '_ne_') and not comparable(val, v):
                     unjudged = True
                 if s in ('_like_', '_not_like_') and val is not None and not isinstance(val, str):
@@ -242,8 +288,12 @@ def check(case, exclude=True):
             out = target.remove_all(key, **kwargs) if key else target.remove_all(**kwargs)
         else:
             out = lst(key, **kwargs) if key else lst(**kwargs)
-        got = [t.id for t in out]
-        same_objects = all(objs.get(t.id) is t for t in out)
+        if link_elems is not None:
+            got = [next((k for k, x in enumerate(link_elems) if x is t), -1) for t in out]
+            same_objects = -1 not in got
+        else:
+            got = [t.id for t in out]
+            same_objects = all(objs.get(t.id) is t for t in out)
     except Exception as e:
         res.v('C18:%s-raises-%s' % (action, type(e).__name__), dict(filters=flt, error=repr(e)[:200]))
         return res
@@ -262,7 +312,11 @@ def check(case, exclude=True):
             res.v('C18:bulk-assignment-raises-%s' % type(e).__name__, dict(attr=a, error=repr(e)[:200]))
             return res
         after = snapshot(objs)
-        for i in m.order:
+        if link_elems is not None:
+            for k, x in enumerate(link_elems):
+                if (k in got) != (x.to_dict().get(a, '<absent>') == v) and not (k not in got and x.to_dict().get(a, '<absent>') == v):
+                    res.v('C18:bulk-assignment-on-a-dependency-list-wrong', dict(task=x.id, attr=a)); break
+        for i in (m.order if link_elems is None else []):
             if i in got:
                 if objs[i].to_dict().get(a, '<absent>') != v:
                     res.v('C18:bulk-assignment-missed-a-selected-task', dict(task=i, attr=a)); break
@@ -272,6 +326,21 @@ def check(case, exclude=True):
                     res.v('C18:bulk-assignment-changed-more-than-the-attribute', dict(task=i, attr=a)); break
             elif before[i] != after[i]:
                 res.v('C18:bulk-assignment-touched-an-unselected-task', dict(task=i, attr=a)); break
+    elif link_elems is not None:
+        lo = objs[m.order[case['of'] % len(m.order)]]
+        now = list(lo.predecessors if recv == 'predecessors' else lo.successors)
+        keep = [x for k, x in enumerate(link_elems) if k not in exp]
+        if [id(x) for x in now] != [id(x) for x in keep]:
+            res.v('C18:remove_all-on-a-dependency-list-leaves-wrong-links', dict(filters=flt, receiver=recv, now=[x.id for x in now], expected=[x.id for x in keep]))
+        for k, x in enumerate(link_elems):
+            mirror = list(x.successors if recv == 'predecessors' else x.predecessors)
+            linked = any(y is lo for y in mirror)
+            if (k in exp) == linked:
+                res.v('C18:remove_all-on-a-dependency-list-leaves-mirror-side-wrong', dict(task=x.id, selected=k in exp)); break
+        after = snapshot(objs)
+        for i in m.order:
+            if after[i][:2] != before[i][:2] or after[i][4:] != before[i][4:]:
+                res.v('C18:remove_all-on-a-dependency-list-changed-hierarchy-or-fields', dict(task=i)); break
     else:
         gone = set()
         for i in got:
